@@ -192,6 +192,21 @@ def tlc_mc(module, cfg, **kw):
     return r
 
 
+def coverage_check(chk, module, cfg, ignore=(), **kw):
+    """Vacuity guard: run TLC with -coverage 1 and require that every action of the module was taken at least once
+    (an action that is never enabled within the bound means its part of the property was never exercised)."""
+    r = tlc_mc(module, cfg, coverage=True, **kw)
+    never = []
+    for m in re.finditer(r"^<(\w+) line \d+, col \d+ to line \d+, col \d+ of module (\w+)[^>]*>: (\d+):(\d+)", r.out, re.M):
+        name, mod, distinct, gen = m.group(1), m.group(2), int(m.group(3)), int(m.group(4))
+        if gen == 0 and name not in ignore and name != "Init":
+            never.append(name)
+    chk.extra.setdefault("coverage_runs", []).append({"module": module, "cfg": cfg, "actions_never_taken": never})
+    if never:
+        raise Machinery("vacuity: action(s) %s of %s are never taken under %s" % (never, module, cfg))
+    return r
+
+
 # ------------------------------------------------------------------ Go harness
 
 _vh = {}
